@@ -260,6 +260,10 @@ pub trait Check: Sync {
     fn cross_check(&self, _runs: &[(u64, Value, RunReport)]) -> Vec<(u64, Violation)> {
         vec![]
     }
+    /// whether `cross_check` is implemented (then every run's case + outcome is kept)
+    fn has_cross_check(&self) -> bool {
+        false
+    }
     /// known findings: (matcher over case/violation) -> description; see known_findings.json
     fn finding_key(&self, _case: &Value, _v: &Violation) -> Option<String> {
         None
@@ -294,8 +298,8 @@ impl OneRun {
 
 /// Re-executes runs [0, k) in a fresh child process with a different number of driver threads
 /// and compares the full digests with the ones observed in this process.
-pub fn determinism_sample(check: &dyn Check, o: &BatchOpts, runs: &[OneRun], k: u64) -> Result<(u64, u64), String> {
-    let k = k.min(runs.len() as u64);
+pub fn determinism_sample(check: &dyn Check, o: &BatchOpts, ours: &BTreeMap<u64, u64>, k: u64) -> Result<(u64, u64), String> {
+    let k = k.min(ours.keys().max().map(|m| m + 1).unwrap_or(0));
     if k == 0 {
         return Ok((0, 0));
     }
@@ -317,10 +321,10 @@ pub fn determinism_sample(check: &dyn Check, o: &BatchOpts, runs: &[OneRun], k: 
     }
     let mut mismatches = 0;
     let mut compared = 0;
-    for r in runs.iter().filter(|r| r.idx < k) {
-        match theirs.get(&r.idx) {
-            Some(d) if *d == r.full_digest() => compared += 1,
-            Some(_) => { compared += 1; mismatches += 1; eprintln!("DETERMINISM: run {} differs between processes", r.idx); }
+    for (idx, mine) in ours.iter().filter(|(i, _)| **i < k) {
+        match theirs.get(idx) {
+            Some(d) if d == mine => compared += 1,
+            Some(_) => { compared += 1; mismatches += 1; eprintln!("DETERMINISM: run {idx} differs between processes"); }
             None => {}
         }
     }
@@ -541,30 +545,122 @@ pub struct BatchOpts {
     pub wall_limit_s: f64,
 }
 
+/// Streaming aggregate of a batch: only what evidence, cross-run checks, the determinism sample and
+/// violation reports need is kept, so that multi-million-run batches stay small in memory.
+#[derive(Default)]
+struct Agg {
+    n: u64,
+    counters: BTreeMap<String, u64>,
+    fault_counts: BTreeMap<String, u64>,
+    steps: u64,
+    choice_points: u64,
+    digests: BTreeSet<u64>,
+    nontrivial_digests: BTreeSet<u64>,
+    outcome_classes: BTreeMap<String, u64>,
+    strategies: BTreeMap<String, u64>,
+    workers: BTreeMap<usize, u64>,
+    par_calls: u64,
+    hash_draws: u64,
+    tls: (u64, u64),
+    /// full runs with a violation or harness error (first few only)
+    bad: Vec<OneRun>,
+    n_bad: u64,
+    /// (idx, full digest) of the first runs, for the determinism sample
+    det: BTreeMap<u64, u64>,
+    samples: BTreeMap<u64, Value>,
+    /// (idx, case, report) for the cross-run check, only if the check has one
+    hist: Vec<(u64, Value, RunReport)>,
+}
+
+impl Agg {
+    fn absorb(&mut self, r: OneRun, det_k: u64, keep_hist: bool, max_bad: usize) {
+        self.n += 1;
+        self.steps += r.steps;
+        self.choice_points += r.choice_points;
+        self.digests.insert(r.digest);
+        if r.report.nontrivial {
+            self.nontrivial_digests.insert(r.digest);
+        }
+        if self.outcome_classes.len() < 500 || self.outcome_classes.contains_key(&r.report.outcome_class) {
+            *self.outcome_classes.entry(r.report.outcome_class.clone()).or_insert(0) += 1;
+        }
+        *self.strategies.entry(r.cfg.strategy.describe().split(':').next().unwrap().to_string()).or_insert(0) += 1;
+        *self.workers.entry(r.cfg.run.par.workers).or_insert(0) += 1;
+        for (k, v) in &r.report.counters {
+            *self.counters.entry(k.clone()).or_insert(0) += v;
+        }
+        for s in &r.stats {
+            for (k, v) in &s.counters {
+                *self.counters.entry(format!("probe:{k}")).or_insert(0) += v;
+            }
+            for (k, v) in &s.buggify_fired {
+                *self.fault_counts.entry(format!("buggify:{k}")).or_insert(0) += v;
+            }
+            for f in &s.faults_fired {
+                let kind = f.split(['@', '(', '{', ' ']).next().unwrap_or(f).to_string();
+                *self.fault_counts.entry(kind).or_insert(0) += 1;
+            }
+            self.par_calls += s.par_calls;
+            self.hash_draws += s.hash_draws;
+            self.tls.0 += s.tls_inits;
+            self.tls.1 += s.tls_reuse;
+        }
+        if r.cfg.run.par.one_item_per_worker { *self.fault_counts.entry("shim:one_item_per_worker".into()).or_insert(0) += 1; }
+        if r.cfg.run.par.all_on_one { *self.fault_counts.entry("shim:all_on_one".into()).or_insert(0) += 1; }
+        if matches!(r.cfg.strategy, Strategy::Stall { .. }) { *self.fault_counts.entry("sched:stall".into()).or_insert(0) += 1; }
+        if r.idx < det_k {
+            self.det.insert(r.idx, r.full_digest());
+        }
+        if r.idx < 4 || (r.report.nontrivial && self.samples.len() < 4) {
+            self.samples.insert(r.idx, json!({
+                "run_index": r.idx,
+                "workload": r.case,
+                "config": simcfg_to_json(&r.cfg),
+                "schedule_prefix": r.traces.iter().map(|t| t.iter().take(40).collect::<Vec<_>>()).collect::<Vec<_>>(),
+                "steps": r.steps,
+                "outcome": r.report.outcome_class,
+            }));
+        }
+        if keep_hist {
+            let mut rep = r.report.clone();
+            rep.counters.clear();
+            self.hist.push((r.idx, r.case.clone(), rep));
+        }
+        if r.report.violation.is_some() || r.harness_error.is_some() {
+            self.n_bad += 1;
+            if self.bad.len() < max_bad {
+                self.bad.push(r);
+            }
+        }
+    }
+}
+
 pub fn run_batch(check: &dyn Check, o: &BatchOpts) -> i32 {
     crate::core::init_process();
     let t0 = Instant::now();
     let next = AtomicU64::new(0);
     let stop = AtomicBool::new(false);
-    let results: Mutex<Vec<OneRun>> = Mutex::new(vec![]);
+    let agg: Mutex<Agg> = Mutex::new(Agg::default());
+    let det_k: u64 = if o.tier == "quick" { 64 } else { 1024 };
+    let keep_hist = check.has_cross_check();
     // hang watchdog: (idx, started) per driver thread
     let inflight: Mutex<BTreeMap<usize, (u64, Instant)>> = Mutex::new(BTreeMap::new());
-    let durations: Mutex<Vec<f64>> = Mutex::new(vec![]);
+    let durations: Mutex<(f64, u64)> = Mutex::new((0.0, 0));
     let done_flag = AtomicBool::new(false);
     let hang: Mutex<Option<u64>> = Mutex::new(None);
 
     std::thread::scope(|s| {
         for t in 0..o.threads {
-            let (next, stop, results, inflight, durations) = (&next, &stop, &results, &inflight, &durations);
+            let (next, stop, agg, inflight, durations) = (&next, &stop, &agg, &inflight, &durations);
             s.spawn(move || loop {
                 if stop.load(Ordering::Relaxed) {
                     break;
                 }
-                let idx = next.fetch_add(1, Ordering::Relaxed);
-                if idx >= o.runs {
+                if t0.elapsed().as_secs_f64() > o.wall_limit_s {
                     break;
                 }
-                if t0.elapsed().as_secs_f64() > o.wall_limit_s {
+                let idx = next.fetch_add(1, Ordering::Relaxed);
+                if idx >= o.runs {
                     break;
                 }
                 let (case, cfg) = plan_run(check, o.seed, idx, &o.tier);
@@ -572,11 +668,14 @@ pub fn run_batch(check: &dyn Check, o: &BatchOpts) -> i32 {
                 inflight.lock().unwrap().insert(t, (idx, st));
                 let r = do_run(check, idx, case, cfg, None);
                 inflight.lock().unwrap().remove(&t);
-                durations.lock().unwrap().push(st.elapsed().as_secs_f64());
-                let bad = r.report.violation.is_some() || r.harness_error.is_some();
-                let mut g = results.lock().unwrap();
-                g.push(r);
-                if bad && g.iter().filter(|r| r.report.violation.is_some() || r.harness_error.is_some()).count() >= o.max_violations {
+                {
+                    let mut d = durations.lock().unwrap();
+                    d.0 += st.elapsed().as_secs_f64();
+                    d.1 += 1;
+                }
+                let mut g = agg.lock().unwrap();
+                g.absorb(r, det_k, keep_hist, o.max_violations.max(8));
+                if g.n_bad as usize >= o.max_violations {
                     stop.store(true, Ordering::Relaxed);
                 }
             });
@@ -586,11 +685,8 @@ pub fn run_batch(check: &dyn Check, o: &BatchOpts) -> i32 {
         s.spawn(move || {
             while !done_flag.load(Ordering::Relaxed) {
                 std::thread::sleep(std::time::Duration::from_millis(200));
-                let med = {
-                    let mut d = durations.lock().unwrap().clone();
-                    if d.is_empty() { 0.05 } else { d.sort_by(|a, b| a.partial_cmp(b).unwrap()); d[d.len() / 2] }
-                };
-                let bound = (100.0 * med).max(60.0);
+                let mean = { let d = durations.lock().unwrap(); if d.1 == 0 { 0.05 } else { d.0 / d.1 as f64 } };
+                let bound = (100.0 * mean).max(60.0);
                 for (_, (idx, st)) in inflight.lock().unwrap().iter() {
                     if st.elapsed().as_secs_f64() > bound {
                         *hang.lock().unwrap() = Some(*idx);
@@ -602,7 +698,6 @@ pub fn run_batch(check: &dyn Check, o: &BatchOpts) -> i32 {
                 }
             }
         });
-        // wait for the drivers by polling `next`/inflight; scope join handles the rest
         loop {
             std::thread::sleep(std::time::Duration::from_millis(20));
             let idle = inflight.lock().unwrap().is_empty();
@@ -613,15 +708,17 @@ pub fn run_batch(check: &dyn Check, o: &BatchOpts) -> i32 {
                 report_hang(check, o, idx);
             }
             if idle && exhausted {
-                break;
+                // give a driver that has fetched an index but not yet registered a moment
+                std::thread::sleep(std::time::Duration::from_millis(50));
+                if inflight.lock().unwrap().is_empty() {
+                    break;
+                }
             }
         }
         done_flag.store(true, Ordering::Relaxed);
     });
 
-    let mut runs = results.into_inner().unwrap();
-    runs.sort_by_key(|r| r.idx);
-    finish_batch(check, o, runs, t0)
+    finish_batch(check, o, agg.into_inner().unwrap(), det_k, t0)
 }
 
 fn report_hang(check: &dyn Check, o: &BatchOpts, idx: u64) -> ! {
@@ -646,33 +743,37 @@ fn report_hang(check: &dyn Check, o: &BatchOpts, idx: u64) -> ! {
     std::process::exit(1);
 }
 
-fn finish_batch(check: &dyn Check, o: &BatchOpts, runs: Vec<OneRun>, t0: Instant) -> i32 {
+fn finish_batch(check: &dyn Check, o: &BatchOpts, mut agg: Agg, det_k: u64, t0: Instant) -> i32 {
     let kf = KnownFindings::load();
     let mut exit = 0;
-    let mut n_viol = 0;
+    let mut n_viol = 0u64;
     let mut known_printed = BTreeSet::new();
+    agg.bad.sort_by_key(|r| r.idx);
+    agg.hist.sort_by_key(|h| h.0);
 
     // harness errors first: nothing else is believed
-    for r in &runs {
+    for r in &agg.bad {
         if let Some(e) = &r.harness_error {
             eprintln!("HARNESS-ERROR property={} run={} {}", check.id(), r.idx, e);
             return 2;
         }
     }
 
-    // cross-run checks
-    let hist: Vec<(u64, Value, RunReport)> = runs.iter().map(|r| (r.idx, r.case.clone(), r.report.clone())).collect();
-    let cross = check.cross_check(&hist);
-    let mut cross_by_idx: BTreeMap<u64, Violation> = BTreeMap::new();
+    // cross-run checks over the recorded history
+    let cross = check.cross_check(&agg.hist);
+    let mut reports: Vec<(u64, Violation, bool)> = agg.bad.iter().map(|r| (r.idx, r.report.violation.clone().unwrap(), true)).collect();
+    let mut seen: BTreeSet<u64> = reports.iter().map(|x| x.0).collect();
     for (i, v) in cross {
-        cross_by_idx.entry(i).or_insert(v);
+        if seen.insert(i) {
+            reports.push((i, v, false));
+        }
     }
+    reports.sort_by_key(|x| x.0);
 
     let mut reported = 0;
-    for r in &runs {
-        let v = r.report.violation.clone().or_else(|| cross_by_idx.get(&r.idx).cloned());
-        let Some(v) = v else { continue };
-        let key = check.finding_key(&r.case, &v);
+    for (idx, v, per_run) in &reports {
+        let (case, cfg) = plan_run(check, o.seed, *idx, &o.tier);
+        let key = check.finding_key(&case, v);
         if let Some(desc) = kf.matches(check.id(), &key) {
             if known_printed.insert(desc.clone()) {
                 println!("KNOWN-FINDING: property={} {}", check.id(), desc);
@@ -685,24 +786,24 @@ fn finish_batch(check: &dyn Check, o: &BatchOpts, runs: Vec<OneRun>, t0: Instant
         }
         reported += 1;
         // minimise (only per-run violations can be re-evaluated in isolation)
-        let minimised = if r.report.violation.is_some() {
-            let again = do_run(check, r.idx, r.case.clone(), r.cfg.clone(), None);
+        let again = do_run(check, *idx, case.clone(), cfg.clone(), None);
+        let minimised = if *per_run {
             if again.report.violation.as_ref().map(|x| &x.class) == Some(&v.class) {
                 minimise(check, again, &v.class, 400)
             } else {
-                eprintln!("HARNESS-ERROR property={} run={} violation did not reproduce from its own seed", check.id(), r.idx);
+                eprintln!("HARNESS-ERROR property={} run={} violation did not reproduce from its own seed", check.id(), idx);
                 return 2;
             }
         } else {
-            do_run(check, r.idx, r.case.clone(), r.cfg.clone(), None)
+            again
         };
         let vv = minimised.report.violation.clone().unwrap_or(v.clone());
         let file = replay_json(check, o.seed, &minimised, &vv);
         std::fs::create_dir_all("/verif/replays").ok();
-        let path = format!("/verif/replays/{}-{}-{}.json", check.id(), o.seed, r.idx);
+        let path = format!("/verif/replays/{}-{}-{}.json", check.id(), o.seed, idx);
         std::fs::write(&path, serde_json::to_string_pretty(&file).unwrap()).unwrap();
         // the minimised file must reproduce strictly (per-run violations)
-        if r.report.violation.is_some() {
+        if *per_run {
             match replay_file(check, &file, true) {
                 Ok(Some(x)) if x.class == vv.class => {}
                 other => {
@@ -715,60 +816,16 @@ fn finish_batch(check: &dyn Check, o: &BatchOpts, runs: Vec<OneRun>, t0: Instant
         println!("  class={} message={}", vv.class, vv.message.chars().take(400).collect::<String>());
         exit = 1;
     }
-
-    // probes
-    let mut counters: BTreeMap<String, u64> = BTreeMap::new();
-    let mut fault_counts: BTreeMap<String, u64> = BTreeMap::new();
-    let mut steps = 0u64;
-    let mut choice_points = 0u64;
-    let mut digests = BTreeSet::new();
-    let mut nontrivial_digests = BTreeSet::new();
-    let mut outcome_classes: BTreeMap<String, u64> = BTreeMap::new();
-    let mut strategies: BTreeMap<String, u64> = BTreeMap::new();
-    let mut workers: BTreeMap<usize, u64> = BTreeMap::new();
-    let mut par_calls = 0u64;
-    let mut hash_draws = 0u64;
-    let mut tls = (0u64, 0u64);
-    for r in &runs {
-        steps += r.steps;
-        choice_points += r.choice_points;
-        digests.insert(r.digest);
-        if r.report.nontrivial {
-            nontrivial_digests.insert(r.digest);
-        }
-        *outcome_classes.entry(r.report.outcome_class.clone()).or_insert(0) += 1;
-        *strategies.entry(r.cfg.strategy.describe().split(':').next().unwrap().to_string()).or_insert(0) += 1;
-        *workers.entry(r.cfg.run.par.workers).or_insert(0) += 1;
-        for (k, v) in &r.report.counters {
-            *counters.entry(k.clone()).or_insert(0) += v;
-        }
-        for s in &r.stats {
-            for (k, v) in &s.counters {
-                *counters.entry(format!("probe:{k}")).or_insert(0) += v;
-            }
-            for (k, v) in &s.buggify_fired {
-                *fault_counts.entry(format!("buggify:{k}")).or_insert(0) += v;
-            }
-            for f in &s.faults_fired {
-                let kind = f.split(['@', '(', '{', ' ']).next().unwrap_or(f).to_string();
-                *fault_counts.entry(kind).or_insert(0) += 1;
-            }
-            par_calls += s.par_calls;
-            hash_draws += s.hash_draws;
-            tls.0 += s.tls_inits;
-            tls.1 += s.tls_reuse;
-        }
-        if r.cfg.run.par.one_item_per_worker { *fault_counts.entry("shim:one_item_per_worker".into()).or_insert(0) += 1; }
-        if r.cfg.run.par.all_on_one { *fault_counts.entry("shim:all_on_one".into()).or_insert(0) += 1; }
-        if matches!(r.cfg.strategy, Strategy::Stall { .. }) { *fault_counts.entry("sched:stall".into()).or_insert(0) += 1; }
+    if agg.n_bad > agg.bad.len() as u64 {
+        n_viol += agg.n_bad - agg.bad.len() as u64;
     }
-    fault_counts.insert("sched:preemption_choice_points".into(), choice_points);
-    fault_counts.insert("hash:seed_draws".into(), hash_draws);
+
+    agg.fault_counts.insert("sched:preemption_choice_points".into(), agg.choice_points);
+    agg.fault_counts.insert("hash:seed_draws".into(), agg.hash_draws);
 
     // determinism: the same runs in another process, with another driver-thread count
-    let det_k = if o.tier == "quick" { 64 } else { 1024 };
     let det = if exit == 0 && std::env::var_os("VERIF_NO_DETERMINISM").is_none() {
-        match determinism_sample(check, o, &runs, det_k) {
+        match determinism_sample(check, o, &agg.det, det_k) {
             Ok((n, 0)) => json!({ "runs_compared": n, "processes": 2, "driver_threads": [o.threads, 3], "mismatches": 0 }),
             Ok((n, m)) => {
                 eprintln!("HARNESS-ERROR property={} non-determinism: {} of {} re-executed runs differ", check.id(), m, n);
@@ -786,24 +843,13 @@ fn finish_batch(check: &dyn Check, o: &BatchOpts, runs: Vec<OneRun>, t0: Instant
     let wall = t0.elapsed().as_secs_f64();
     if exit == 0 {
         for p in check.required_probes() {
-            let n = counters.get(p).copied().unwrap_or(0);
-            if n == 0 && runs.len() as u64 >= o.runs.min(200) {
-                eprintln!("HARNESS-ERROR property={} required probe '{}' never fired in {} runs", check.id(), p, runs.len());
+            let n = agg.counters.get(p).copied().unwrap_or(0);
+            if n == 0 && agg.n >= o.runs.min(200) {
+                eprintln!("HARNESS-ERROR property={} required probe '{}' never fired in {} runs", check.id(), p, agg.n);
                 exit = 2;
             }
         }
     }
-
-    let samples: Vec<Value> = runs.iter().filter(|r| r.report.nontrivial).take(3).chain(runs.iter().take(1)).map(|r| {
-        json!({
-            "run_index": r.idx,
-            "workload": r.case,
-            "config": simcfg_to_json(&r.cfg),
-            "schedule_prefix": r.traces.iter().map(|t| t.iter().take(40).collect::<Vec<_>>()).collect::<Vec<_>>(),
-            "steps": r.steps,
-            "outcome": r.report.outcome_class,
-        })
-    }).collect();
 
     if let Some(path) = &o.evidence_path {
         let ev = json!({
@@ -812,23 +858,24 @@ fn finish_batch(check: &dyn Check, o: &BatchOpts, runs: Vec<OneRun>, t0: Instant
             "seed": o.seed,
             "level": check.level(),
             "coverage": {
-                "evaluations": runs.len(),
-                "distinct_nontrivial": nontrivial_digests.len(),
+                "evaluations": agg.n,
+                "distinct_nontrivial": agg.nontrivial_digests.len(),
                 "rule": check.rule(),
-                "samples": samples,
-                "distinct_event_digests": digests.len(),
-                "runs_per_hour": (runs.len() as f64 / wall.max(1e-6) * 3600.0) as u64,
-                "simulated_time": { "unit": "scheduling steps (no timers exist in yui; logical time only)", "total_steps": steps, "choice_points": choice_points },
-                "fault_kinds_fired": fault_counts,
-                "probe_counters": counters,
-                "outcome_classes": outcome_classes,
-                "strategies": strategies,
-                "worker_counts": workers.iter().map(|(k, v)| (k.to_string(), *v)).collect::<BTreeMap<_, _>>(),
-                "parallel_calls": par_calls,
-                "tls_slots": { "inits": tls.0, "reuses": tls.1 },
+                "samples": agg.samples.values().collect::<Vec<_>>(),
+                "distinct_event_digests": agg.digests.len(),
+                "runs_per_hour": (agg.n as f64 / wall.max(1e-6) * 3600.0) as u64,
+                "simulated_time": { "unit": "scheduling steps (no timers exist in yui; logical time only)", "total_steps": agg.steps, "choice_points": agg.choice_points },
+                "fault_kinds_fired": agg.fault_counts,
+                "probe_counters": agg.counters,
+                "outcome_classes": agg.outcome_classes,
+                "strategies": agg.strategies,
+                "worker_counts": agg.workers.iter().map(|(k, v)| (k.to_string(), *v)).collect::<BTreeMap<_, _>>(),
+                "parallel_calls": agg.par_calls,
+                "tls_slots": { "inits": agg.tls.0, "reuses": agg.tls.1 },
+                "cross_run_history_length": agg.hist.len(),
                 "real_vs_stub": {
                     "real": "all code of yui, yui-matrix, yui-homology, yui-link, yui-kh, the ykh app modules and their third-party crates",
-                    "stub": "rayon (executor re-implemented on simulated workers), thread_local (slot storage), the RwLock/Mutex objects at the three racing sites (shuttle's), hash *seeds* of std/ahash (hashers are real), file reads (C20)"
+                    "stub": "rayon (executor re-implemented as a simulated worker pool), thread_local (slot storage keyed by simulated worker), the RwLock/Mutex objects at the three racing sites (simulator-owned, std semantics incl. poisoning), hash *seeds* of std/ahash (hashers are real), file reads (C20: simulated disk)"
                 },
                 "known_findings_matched": known_printed.iter().collect::<Vec<_>>(),
                 "determinism_sample": det,
@@ -844,7 +891,7 @@ fn finish_batch(check: &dyn Check, o: &BatchOpts, runs: Vec<OneRun>, t0: Instant
     }
     eprintln!(
         "[{}] tier={} seed={} runs={} distinct={} nontrivial-distinct={} steps={} wall={:.1}s violations={} exit={}",
-        check.id(), o.tier, o.seed, runs.len(), digests.len(), nontrivial_digests.len(), steps, wall, n_viol, exit
+        check.id(), o.tier, o.seed, agg.n, agg.digests.len(), agg.nontrivial_digests.len(), agg.steps, wall, n_viol, exit
     );
     exit
 }
